@@ -64,7 +64,14 @@ func EnableDebug(ctx context.Context) context.Context {
 // SetLevel sets a specific log level for this context.
 func SetLevel(ctx context.Context, level zapcore.Level) context.Context {
 	lh, ok := getOrDefault(ctx)
-	lh.Store(CustomLevelLogger(lh.Load(), level))
+	// the holder may be shared by other contexts: retry until our update is applied
+	// to the logger that is actually replaced, so no concurrent update is lost.
+	for {
+		logger := lh.Load()
+		if lh.CompareAndSwap(logger, CustomLevelLogger(logger, level)) {
+			break
+		}
+	}
 	if !ok {
 		ctx = context.WithValue(ctx, logHolderKey, lh)
 	}
@@ -75,8 +82,13 @@ func SetLevel(ctx context.Context, level zapcore.Level) context.Context {
 // child logger.
 func WithFields(ctx context.Context, fields ...zap.Field) context.Context {
 	lh, ok := getOrDefault(ctx)
-	logger := lh.Load()
-	lh.Store(logger.With(fields...))
+	// see SetLevel: compare-and-swap so concurrent WithFields/SetLevel calls all land.
+	for {
+		logger := lh.Load()
+		if lh.CompareAndSwap(logger, logger.With(fields...)) {
+			break
+		}
+	}
 	if !ok {
 		ctx = context.WithValue(ctx, logHolderKey, lh)
 	}
